@@ -30,6 +30,11 @@ THEOREMS = [
     "Cv.C02.compile_accepted",
     "Cv.C02.compiled_routine_action",
     "Cv.C02.compiled_routine_1d",
+    "Cv.C01m.matGraph_act_eq_any",
+    "Cv.C01m.matGraph_act_eq_modulo0",
+    "Cv.C01m.apply_batch_int64_eq_model",
+    "Cv.C01m.apply_batch_int64_sum_eq_model",
+    "Cv.C01m.apply_batch_int64_eq_model_modulo0",
 ]
 M64 = (1 << 64) - 1
 
@@ -436,6 +441,11 @@ def check_matrix_kernel(ck: Check, n, m, modulo, M, S):
     mm = ck.driver().ask(f"mat.apply {B} {n} {m} ; {' '.join(str(x % B) for x in Mr)} ; {' '.join(str(x % B) for x in S)}")
     if mm != " ".join(str(x % B) for x in want):
         ck.correspondence_break("Matrix.apply (model) differs from exact integer arithmetic", {"case": case})
+    # the int64 rendering of apply_batch_torch (theorems C01m.apply_batch_int64_eq_model*: equal to the exact model when
+    # (m-1)^2 < 2^63 and n(m-1) < 2^63, and for modulo 0 always)
+    m64 = ck.driver().ask(f"mat.apply64 {modulo} {n} {m} ; {' '.join(map(str, Mr))} ; {' '.join(map(str, S))}")
+    if m64.split() != [str(x) for x in b]:
+        ck.correspondence_break("matActInt64 (int64 model of apply_batch_torch) differs from the implementation", {"case": case, "model": m64[:300], "impl": b})
 
 
 def check_mixed_moduli(ck: Check):
@@ -522,7 +532,7 @@ def check_auto_width(ck: Check):
 def main():
     ck = Check("C02")
     rng = ck.rng
-    ck.lean_obligations("CvProps.C02", THEOREMS)
+    ck.lean_obligations(["CvProps.C02", "CvProps.C01m"], THEOREMS)
     if ck.replay:
         body = json.load(open(os.path.join(VERIF, ck.replay) if not os.path.isabs(ck.replay) else ck.replay))
         c = body["case"]
